@@ -17,6 +17,7 @@ var c07Offers = [][]string{
 	{"text/plain", "application/json", "text/csv"},
 	{"text/plain; charset=utf-8", "application/json"},
 	{"application/json", "application/json"},
+	{"text/plain", "application/vnd.Acme+json"}, // offers are matched as spelled
 	{},
 }
 
@@ -107,7 +108,7 @@ func VerifC07Encoding() {
 }
 
 // ("tex/*" and "app/*" admit nothing: a type range matches whole types only)
-var c07Ranges = []string{"*/*", "text/*", "text/plain", "application/json", "image/png", "tex/*", "app/*"}
+var c07Ranges = []string{"*/*", "text/*", "text/plain", "application/json", "image/png", "tex/*", "app/*", "application/vnd.Acme+json"}
 
 // c07QText returns a q parameter text: absent, q=0, q=1, q=0.<digits>.
 func c07QText(name string, digits int) string {
@@ -139,7 +140,7 @@ func c07Matches(spec, offer string) (bool, int) {
 // VerifC07Select: the selected offer is the one matched by the range of highest
 // quality, ties broken by specificity and then by offer order; q=0 never selects.
 func VerifC07Select() {
-	offers := c07Offers[zv.Choose("offers", 4)]
+	offers := c07Offers[zv.Choose("offers", 5)]
 	def := c07Defaults[zv.Choose("default", len(c07Defaults))]
 	nr := 1 + zv.Choose("nranges", zv.Param("ranges", 2))
 	digits := zv.Param("qdigits", 1)
